@@ -11,6 +11,7 @@ ASSUME CheckHostnameFalseKeepsChain
 ASSUME ServerNameKeepsChain
 ASSUME TunnelChangesNothing
 ASSUME WsNeverWrapped
+ASSUME ProtocolChoiceChangesNothing
 VARIABLES c, cert, stage, sent
 vars == <<c, cert, stage, sent>>
 Init == c \in {x \in Cfgs : ~Contradictory(x)} /\ cert \in Certs /\ stage = "tcp" /\ sent = <<>>
